@@ -247,4 +247,17 @@ theorem tile_equals_region {α} (z : α) (M : Img α) (lut : List LutRow) (frame
   rw [hpix a b ha0 ha1 hb0 hb1, hspec a b ha0 (by omega) hb0 (by omega), if_pos (by omega)]
 
 
+/-! ## "Is this image TILED_FULL?" — four decisions in two modules -/
+
+theorem tiledFull_decisions (org : Option String) :
+    (isTiledFullLut org = true ↔ org = some "TILED_FULL") ∧ isTiledFullRegionRead org = isTiledFullLut org ∧
+    isTiledFullIter org = isTiledFullLut org ∧ isTiledFullSpatialInfo org = isTiledFullLut org := by
+  cases org with
+  | none => simp [isTiledFullLut, isTiledFullRegionRead, isTiledFullIter, isTiledFullSpatialInfo]
+  | some v =>
+    by_cases h : v = "TILED_FULL"
+    · simp [isTiledFullLut, isTiledFullRegionRead, isTiledFullIter, isTiledFullSpatialInfo, h]
+    · simp [isTiledFullLut, isTiledFullRegionRead, isTiledFullIter, isTiledFullSpatialInfo, h]
+
+
 end HdVerif.TilingLemmas
